@@ -41,7 +41,7 @@ def gen(ctx, n):
             pad = r.choice([0, 1, 2, 'same', 'same', 'valid'])
             stride = 1 if pad == 'same' else r.randint(1, 3)
             add('conv%d' % nd, {'cin': cin, 'cout': cout, 'k': ksz, 'stride': stride, 'pad': pad, 'dil': dil, 'groups': groups, 'bias': r.random() < 0.7,
-                               'norm': r.choice(['gn', 'in', 'none']), 'gn_groups': r.choice([1, cout]), 'size': size, 'o': 2})
+                               'norm': r.choice(['gn', 'in', 'none']), 'gn_groups': r.choice([1, cout]), 'size': size, 'o': 2, 'eps': r.choice([1e-5, 1e-5, 1e-2, 0.5])})
             # the same convolution on an input stored in another memory layout
             add('conv%d' % nd, {'cin': cin, 'cout': cout, 'k': ksz, 'stride': stride, 'pad': pad, 'dil': dil, 'groups': groups, 'bias': r.random() < 0.7,
                                'norm': r.choice(['gn', 'none']), 'gn_groups': 1, 'size': size + 1, 'o': 2, 'layout': r.choice(['channels_last', 'transposed'])})
@@ -55,7 +55,7 @@ def gen(ctx, n):
         elif k == 5:
             V = r.randint(3, 7)
             add('emb', {'V': V, 'd': r.randint(1, 3), 'pad': r.choice([None, 0, V - 1, 1]), 'o': 2, 'n': r.randint(2, 4)})
-            add('emb', {'V': V, 'd': r.randint(1, 3), 'pad': r.choice([None, 0]), 'o': 2, 'n': r.randint(2, 4), 'freq': r.random() < 0.6, 'ln_bias': r.random() < 0.5})
+            add('emb', {'V': V, 'd': r.randint(1, 3), 'pad': r.choice([None, 0]), 'o': 2, 'n': r.randint(2, 4), 'freq': r.random() < 0.6, 'ln_bias': r.random() < 0.5, 'eps': r.choice([1e-5, 1e-2, 0.5])})
         elif k == 6:
             add('bag', {'V': r.randint(3, 6), 'd': r.randint(1, 3), 'o': 2, 'n': r.randint(2, 4), 'mode': r.choice(['sum', 'mean']), 'dup': r.random() < 0.6}, mode='hooks')
             Vb = r.randint(3, 6)
